@@ -324,8 +324,13 @@ pub fn gen(tier: &str, r: &mut Rng) -> Vec<String> {
     let mut exprs = Vec::new();
     all_exprs(depth, &alphabet(), &mut exprs);
     let n_structs = budget(tier, 3, 30);
-    for _ in 0..n_structs {
-        let s = gen_pdb(r, &o);
+    for k in 0..n_structs {
+        let mut s = gen_pdb(r, &o);
+        if k % 2 == 1 { for m in s.models.iter_mut() { for c in m.chains.iter_mut() { for x in c.residues.iter_mut() { for f in x.confs.iter_mut() {
+            let mut ser: Vec<usize> = f.atoms.iter().map(|a| a.serial).collect();
+            ser.reverse();
+            for (a, v) in f.atoms.iter_mut().zip(ser) { a.serial = v; }
+        } } } } }
         let (_, back) = realise(&s);
         for e in &exprs {
             let level = LEVELS[r.below(LEVELS.len())];
@@ -338,8 +343,14 @@ pub fn gen(tier: &str, r: &mut Rng) -> Vec<String> {
     }
     // random trees to depth 8
     let n_rand = budget(tier, 1500, 60000);
-    for _ in 0..n_rand {
-        let s = gen_pdb(r, &o);
+    for k in 0..n_rand {
+        let mut s = gen_pdb(r, &o);
+        // serial numbers need not go up inside a conformer (edits, joins, files listing atoms in another order)
+        if k % 3 == 0 { for m in s.models.iter_mut() { for c in m.chains.iter_mut() { for x in c.residues.iter_mut() { for f in x.confs.iter_mut() {
+            let mut ser: Vec<usize> = f.atoms.iter().map(|a| a.serial).collect();
+            if k % 2 == 0 { ser.reverse(); } else if ser.len() > 1 { let i = r.below(ser.len() - 1); ser.swap(i, i + 1); ser.rotate_left(1); }
+            for (a, v) in f.atoms.iter_mut().zip(ser) { a.serial = v; }
+        } } } } }
         let (_, back) = realise(&s);
         let d = 1 + r.below(8);
         let e = gen_expr(r, &back, d);
